@@ -407,3 +407,30 @@ add("alt-step-hred-from-full-gradient-difference", F, ["C12"], "dfols/trust_regi
 add("s-alt-step-update-order-swapped", S, ["C12"], "dfols/trust_region.py", "            gnew += (cth - 1.0) * hred + sth * hs\n            d[xbdi == 0] = cth * d[xbdi == 0] + sth * s[xbdi == 0]\n",
     "            d[xbdi == 0] = cth * d[xbdi == 0] + sth * s[xbdi == 0]\n            gnew += (cth - 1.0) * hred + sth * hs\n")
 add("s-cg-updates-written-out", S, ["C12"], "dfols/trust_region.py", "            gnew += stplen * hs\n            d += stplen * s\n", "            d = d + stplen * s\n            gnew = gnew + stplen * H.dot(s)\n")
+add("s-alt-step-free-components-in-a-temporary", S, ["C12"], "dfols/trust_region.py", "            d[xbdi == 0] = cth * d[xbdi == 0] + sth * s[xbdi == 0]\n",
+    "            d_free = cth * d[xbdi == 0] + sth * s[xbdi == 0]\n            d[xbdi == 0] = d_free\n")
+
+# ---- C16-7: the assembled gradient is 2 J'(c + J x_opt) at the current incumbent
+add("assembled-gradient-without-the-incumbent-term", F, ["C16"], "dfols/model.py", "        r = self.model_const + np.dot(self.model_jac, self.xopt())  # constant term (for inexact interpolation)",
+    "        r = self.model_const  # constant term (for inexact interpolation)", "C16-7")
+add("assembled-gradient-factor-dropped", F, ["C16"], "dfols/model.py", "        g = 2.0 * np.dot(J.T, r)  # n-vector", "        g = np.dot(J.T, r)  # n-vector", "C16-7")
+add("s-assembled-gradient-spelled-differently", S, ["C16"], "dfols/model.py", "        r = self.model_const + np.dot(self.model_jac, self.xopt())  # constant term (for inexact interpolation)\n        J = self.model_jac\n",
+    "        jac = self.model_jac\n        xk = self.xopt()\n        r = np.dot(jac, xk) + self.model_const\n        J = jac\n")
+# ---- C12-6: the index found by a scan is reset before every scan
+add("alt-step-limiting-index-reset-hoisted", F, ["C12"], "dfols/trust_region.py", "            angbd = 1.0\n            iact = None\n", "            angbd = 1.0\n", "C12-6")
+add("s-scan-index-reset-by-tuple-assignment", S, ["C12"], "dfols/trust_region.py", "            angbd = 1.0\n            iact = None\n", "            angbd, iact = 1.0, None\n")
+
+# ---- C13-8: the step routines do not modify their array arguments; C13-7 with a data-dependent first direction; C15-2c complete sweeps
+add("linear-solver-zeroes-entries-of-its-argument", F, ["C13"], "dfols/trust_region.py", "    x = np.zeros((n,))\n    dirn = -g\n    cons_dirns = []\n", "    x = np.zeros((n,))\n    dirn = g\n    cons_dirns = []\n", "C13-8")
+add("s-linear-solver-negates-with-numpy", S, ["C13"], "dfols/trust_region.py", "    x = np.zeros((n,))\n    dirn = -g\n    cons_dirns = []\n", "    x = np.zeros((n,))\n    dirn = np.negative(g)\n    cons_dirns = []\n")
+add_multi("geometry-reinforcing-direction-returned-early", F, ["C13"], [
+    ("dfols/trust_region.py", "    smin = trsbox_linear(g, lower - xbase, upper - xbase, Delta, use_fortran=use_fortran)  # minimise g' * s\n    smax = trsbox_linear(-g, lower - xbase, upper - xbase, Delta, use_fortran=use_fortran)  # maximise g' * s\n",
+     "    gs = g if c <= 0.0 else -g\n    smin = trsbox_linear(gs, lower - xbase, upper - xbase, Delta, use_fortran=use_fortran)\n    if np.linalg.norm(smin) >= (1.0 - 1e-12) * Delta:\n        return xbase + smin\n    smax = trsbox_linear(-gs, lower - xbase, upper - xbase, Delta, use_fortran=use_fortran)\n"),
+], "C13-7")
+add_multi("s-geometry-first-direction-chosen-by-the-sign-of-c", S, ["C13"], [
+    ("dfols/trust_region.py", "    smin = trsbox_linear(g, lower - xbase, upper - xbase, Delta, use_fortran=use_fortran)  # minimise g' * s\n    smax = trsbox_linear(-g, lower - xbase, upper - xbase, Delta, use_fortran=use_fortran)  # maximise g' * s\n",
+     "    gs = g if c <= 0.0 else -g\n    smin = trsbox_linear(gs, lower - xbase, upper - xbase, Delta, use_fortran=use_fortran)\n    smax = trsbox_linear(-gs, lower - xbase, upper - xbase, Delta, use_fortran=use_fortran)\n"),
+])
+add("dykstra-flat-loop-stops-inside-a-sweep", F, ["C15", "C09"], "dfols/util.py",
+    "    while n < max_iter and cI >= tol:\n        cI = 0\n        for i in range(0,p):\n            # Update iterate\n            prev_x = x.copy()\n            x = P[i](prev_x - y[i,:])\n",
+    "    cI = np.full((p,), float('inf'))\n    while n < p * max_iter and np.sum(cI) >= tol:\n        for i in [n % p]:\n            # Update iterate\n            prev_x = x.copy()\n            x = P[i](prev_x - y[i,:])\n", "stop-inside-a-sweep")
